@@ -8,7 +8,7 @@ On break: harness `oracle` evaluates the property's clauses directly on the real
 """
 import os
 
-THEOREMS = ["IstioModel.C13.Theorems"]
+THEOREMS = ["IstioModel.C13.Theorems", "IstioModel.C13.ConcTheorems"]
 STREAMS = ("index", "sched")
 
 
